@@ -229,11 +229,12 @@ def structural(tier, res):
 ORACLES = [
     {'name': 'small transaction sets with hostile text in descriptions, merchant names and tags through every renderer; HTML data decoded by html.parser then json and compared '
              'with what was analysed; merchant names enumerated over a small alphabet', 'script': 'C12.py',
-     'bound': '9-transaction base set (+views, single, only-credit), 8 hostile strings as description/tag and as merchant name, all merchant names of length <= 2 (quick) / 3 (thorough) over an 8/12-symbol alphabet in groups of 12'},
+     'bound': '9-transaction base set (+views, single, only-credit, merchants whose categories cancel out, only refunds, only income), 3- to 6-way id collisions, 8 hostile strings as description/tag and as merchant name, all merchant names of length <= 2 (quick) / 3 (thorough) over an 8/12-symbol alphabet in groups of 12'},
 ]
 TRUSTED_BASE = ['pyvc symbolic executor and syntactic clauses in props/C12.py', 'z3 5.1.0 / cvc5 1.0.3',
                 'HTML script-data rule (content ends at the first case-insensitive "</script", "<!--" changes state) and json.dumps escaping: exercised by the bounded stand-in, not proved',
                 'str.replace and str() of an int are uninterpreted; a decimal suffix is non-empty']
 ASSUMPTIONS = ['A10 the HTML and JSON parsers are outside the verified text', 'flow-insensitive definite assignment: a name bound on some path counts as bound']
-EXPLANATION = ('make_merchant_id injectivity proved on the real helper (two calls on the shared state); definite-assignment, figure data-flow and embedding clauses decided syntactically over the real AST; '
+EXPLANATION = ('make_merchant_id proved against a representation invariant of the shared state (one call from any state: injective and stable for any number of merchants; while loop cut at its invariant); '
+               'definite-assignment, figure data-flow, embedding and division-guard clauses decided syntactically over the real AST; '
                'the replace_all string obligation is beyond both solvers and, with the decode round trip, is covered by the labelled bounded stand-in.')
